@@ -4,6 +4,9 @@ import Req.Driver.WireUtil
 import Req.Client.Merge
 import Req.H2.Fields
 import Req.H1.Origin
+import Req.H3.BodyWrite
+import Req.H1.RoundTrip
+import Req.Client.Replay
 /-! Driver lanes of C01. -/
 namespace Req.Driver.L.C01
 open Req.Proto
@@ -184,6 +187,31 @@ def laneH1 (args : List String) : String :=
       if order.isEmpty then "ok " ++ Wire.showBlob wire
       else Wire.showOrdered wire order
 
+/-- `c01send <full|head> …` (then the arguments of `c01h1`): `Transport.roundTrip`'s validation +
+`persistConn.writeRequest`: the error class, or the bytes on the wire (`head`: only up to the
+blank line — used when the reference server parser refused the request, so that the capture of
+the body is not reliable). -/
+def laneSend : List String → String
+  | mode :: args =>
+    match decodeWReq args with
+    | none => "bad-op"
+    | some r =>
+      match Req.H1.sendH1 r with
+      | .error .invalidHeader => "err:header"
+      | .error .invalidMethod => "err:method"
+      | .error .noHost => "err:nohost"
+      | .error (.write e) => showWErr e
+      | .ok wire =>
+        let order := Req.H1.orderList r.header
+        if mode == "head" then
+          let (head, _) := Wire.splitHead wire
+          if order.isEmpty then "head " ++ Wire.showBlob head
+          else "head-" ++ Wire.showOrdered (head ++ [13, 10, 13, 10]) order
+        else
+          if order.isEmpty then "ok " ++ Wire.showBlob wire
+          else Wire.showOrdered wire order
+  | _ => "bad-op"
+
 /-- cookies: `name:value:q,…` (hex, q = 0/1) or `-`. -/
 def decodeCookies (s : String) : Option (List Req.Merge.Cookie) :=
   if s == "-" then some [] else
@@ -210,7 +238,7 @@ def lanePipe : List String → String
       some cc, some rc, some body, some ag =>
       let bs? : Option Req.Merge.BodySpec :=
         if bk == "none" then some .none else if bk == "bytes" then some (.bytes body)
-        else if bk == "reader" then some (.reader body) else none
+        else if bk == "reader" then some (.reader body) else if bk == "func" then some (.func body) else none
       match bs? with
       | none => "bad-op"
       | some bs =>
@@ -224,11 +252,152 @@ def lanePipe : List String → String
         | .error _ => "err"
         | .ok r =>
           showUrl r.url ++ s!" m={encodeHex r.method} host={encodeHex r.host} hdr={encodeHdr r.header} " ++
-            s!"cl={r.contentLength} hasbody={b01 r.hasBody} " ++ Wire.showBlob r.body
+            s!"cl={r.contentLength} hasbody={b01 r.hasBody} getbody={b01 r.getBody} " ++ Wire.showBlob r.body
     | _, _, _, _, _, _, _, _, _, _, _, _, _, _ => "bad-op"
   | _ => "bad-op"
 
+/-! ### request-body DATA framing (HTTP/2, HTTP/3) -/
+
+def decodeEnding : String → Option Req.H2.BodyWrite.Ending
+  | "eof" => some .eof
+  | "eofl" => some .eofWithLast
+  | "err" => some .error
+  | "errl" => some .errorWithLast
+  | _ => none
+
+def showOutcomeH2 : Req.H2.BodyWrite.Outcome → String
+  | .done => "done"
+  | .tooLong => "toolong"
+  | .readError => "readerr"
+  | .blocked => "blocked"
+
+def showFrameH2 : Req.H2.BodyWrite.Frame → String
+  | .data p e => s!"{p.length}:{b01 e}"
+  | .trailers => "T"
+
+/-- `c01h2body <cl|-1> <trailers 0|1|2> <maxFrame> <buf> <body> <read sizes> <ending> <avails>`:
+`writeRequestBody` — outcome, the (length:END_STREAM) list of the frames (`T` = trailers), the
+reassembled payload, `frameScratchBufferLen`. trailers: 0 none, 1 a trailer block, 2 `req.Trailer`
+non-nil but nothing to send. -/
+def laneH2Body : List String → String
+  | [cl, tr, mf, buf, body, sizes, ending, avails] =>
+    match decodeInt cl, tr.toNat?, mf.toNat?, buf.toNat?, Wire.decodeBody body, decodeNatList sizes,
+          decodeEnding ending, decodeNatList avails with
+    | some cl, some tr, some mf, some buf, some body, some sizes, some ending, some avails =>
+      let cfg : Req.H2.BodyWrite.Cfg :=
+        { maxFrame := mf, buf := buf, cl := if cl < 0 then none else some cl.toNat,
+          hasTrailers := tr != 0, trailerBlock := tr == 1 }
+      let (sent, o) := Req.H2.BodyWrite.writeBody cfg { data := body, sizes := sizes, ending := ending } avails
+      let fs := Req.H2.BodyWrite.frames sent
+      let shown := if fs.isEmpty then "-" else ",".intercalate (fs.map showFrameH2)
+      s!"{showOutcomeH2 o} frames={shown} scratch={Req.H2.Conn.scratchLen cl mf} " ++
+        Wire.showBlob (Req.H2.BodyWrite.payloads fs)
+    | _, _, _, _, _, _, _, _ => "bad-op"
+  | _ => "bad-op"
+
+/-- `c01h3body <buf> <body> <read sizes> <ending>`: `sendRequestBody` + `stream.Write` — outcome,
+the sizes of the `Write` calls, every byte written to the QUIC stream. -/
+def laneH3Body : List String → String
+  | [buf, body, sizes, ending] =>
+    match buf.toNat?, Wire.decodeBody body, decodeNatList sizes, decodeEnding ending with
+    | some buf, some body, some sizes, some ending =>
+      let (ws, o) := Req.H3.BodyWrite.sendBody buf { data := body, sizes := sizes, ending := ending }
+      let os := match o with | .closed => "closed" | .reset => "reset"
+      match Req.H3.BodyWrite.wire ws with
+      | none => "panic"
+      | some w => s!"{os} writes={encodeNatList (ws.map (·.length))} " ++ Wire.showBlob w
+    | _, _, _, _ => "bad-op"
+  | _ => "bad-op"
+
+/-! ### transparent replays -/
+
+def decodeKind : String → Option Req.Replay.BodyKind
+  | "none" => some .none
+  | "rew" => some .rewindable
+  | "one" => some .oneShot
+  | _ => none
+
+def showResult : Req.Replay.Result → String
+  | .accepted b => "accepted " ++ Wire.showBlob b
+  | .failed => "failed"
+  | .pending => "pending"
+
+def decodeH2Attempt (t : String) : Option Req.Replay.H2Attempt :=
+  match t.toList with
+  | ['A'] => some .accepted
+  | ['U'] => some .unusable
+  | c :: rest =>
+    match (String.ofList rest).toNat? with
+    | some k =>
+      if c == 'R' then some (.refused k) else if c == 'G' then some (.goAway k)
+      else if c == 'P' then some (.protoFromPeer k) else if c == 'O' then some (.other k) else none
+    | none => none
+  | [] => none
+
+/-- `c01h2retry <honest> <kind> <attempts> <data>`: attempts `A` accepted, `U` unusable connection,
+`R<k>` refused / `G<k>` GOAWAY / `P<k>` PROTOCOL_ERROR from the peer / `O<k>` other error after `k`
+more bytes of the body were read. -/
+def laneH2Retry : List String → String
+  | [honest, kind, attempts, data] =>
+    match Wire.decodeBool honest, decodeKind kind, (attempts.splitOn ",").mapM decodeH2Attempt,
+          Wire.decodeBody data with
+    | some h, some k, some as, some d =>
+      showResult (Req.Replay.h2Run ⟨h, true⟩ { kind := k, data := d, idempotent := false } as 0 0)
+    | _, _, _, _ => "bad-op"
+  | _ => "bad-op"
+
+def decodeH1Attempt (t : String) : Option Req.Replay.H1Attempt :=
+  match t.splitOn ":" with
+  | [flags, c] =>
+    match flags.toList, c.toNat? with
+    | [r, e, tch], some c =>
+      let err : Option (Option Req.Replay.H1Err) :=
+        if e == 'A' then some none else if e == 'N' then some (some .nothingWritten)
+        else if e == 'S' then some (some .readFromServer) else if e == 'I' then some (some .serverClosedIdle)
+        else if e == 'O' then some (some .other) else none
+      err.map fun err => { reused := r == '1', err := err, consumed := c, touched := tch == '1' }
+    | _, _ => none
+  | _ => none
+
+/-- `c01h1retry <honest> <kind> <idempotent> <attempts> <data>`: attempt = `<reused 0|1><A|N|S|I|O><touched 0|1>:<consumed>`. -/
+def laneH1Retry : List String → String
+  | [honest, kind, idem, attempts, data] =>
+    match Wire.decodeBool honest, decodeKind kind, Wire.decodeBool idem,
+          (attempts.splitOn ",").mapM decodeH1Attempt, Wire.decodeBody data with
+    | some h, some k, some i, some as, some d =>
+      showResult (Req.Replay.h1Run ⟨h, true⟩ { kind := k, data := d, idempotent := i } as 0)
+    | _, _, _, _, _ => "bad-op"
+  | _ => "bad-op"
+
+def decodeH3Attempt (t : String) : Option Req.Replay.H3Attempt :=
+  match t.splitOn ":" with
+  | [flags, c] =>
+    match flags.toList, c.toNat? with
+    | [r, e], some c =>
+      let err : Option (Option Req.Replay.H3Err) :=
+        if e == 'A' then some none else if e == 'T' then some (some .timeout)
+        else if e == 'C' then some (some .connection) else if e == 'O' then some (some .other) else none
+      err.map fun err => { reused := r == '1', err := err, consumed := c }
+    | _, _ => none
+  | _ => none
+
+/-- `c01h3retry <honest> <timeout-fix> <kind> <idempotent> <attempts> <data>`: attempt = `<reused 0|1><A|T|C|O>:<consumed>`. -/
+def laneH3Retry : List String → String
+  | [honest, tfix, kind, idem, attempts, data] =>
+    match Wire.decodeBool honest, Wire.decodeBool tfix, decodeKind kind, Wire.decodeBool idem,
+          (attempts.splitOn ",").mapM decodeH3Attempt, Wire.decodeBody data with
+    | some h, some tf, some k, some i, some as, some d =>
+      showResult (Req.Replay.h3Run ⟨h, tf⟩ { kind := k, data := d, idempotent := i } as 0)
+    | _, _, _, _, _, _ => "bad-op"
+  | _ => "bad-op"
+
 def lanes : List (String × (List String → String)) := [
+  ("c01h2retry", laneH2Retry),
+  ("c01h1retry", laneH1Retry),
+  ("c01h3retry", laneH3Retry),
+  ("c01send", laneSend),
+  ("c01h2body", laneH2Body),
+  ("c01h3body", laneH3Body),
   ("c01pipe", lanePipe),
   ("c01h1", laneH1),
   ("c01url", laneUrl),
